@@ -225,6 +225,32 @@ pub fn suite_qualmap(ctx: &Ctx, thorough: bool) {
                 }
             }
         }
+        // typed accessors with user-defined keys: `Tag` (needs lower-casing) behaves as the key "tag"; an invalid declared key is simply absent
+        {
+            ctx.eval();
+            let mut q = build(&c);
+            let mut m = m0.clone();
+            let r = guarded(|| {
+                q.insert_typed(UpperTag("T1"));
+                let a = q.get_typed::<UpperTag>().map(|t| t.0.to_owned());
+                let b = q.contains_typed::<UpperTag>();
+                let c2 = q.get("tag").map(str::to_owned);
+                (a, b, c2)
+            });
+            m.insert("tag".into(), "T1".into());
+            match r {
+                Ok((a, b, c2)) => { if a.as_deref() != Some("T1") || !b || c2.as_deref() != Some("T1") { ctx.violate("C11.typed", "a typed qualifier is stored and found under its lower-cased declared key", json!({"content": format!("{c:?}")}), format!("{a:?} {b} {c2:?}"), "T1 true T1".into()); } },
+                Err(p) => ctx.violate("C06.panic", "typed accessors with a valid declared key never panic", json!({"content": format!("{c:?}")}), p, "no panic".into()),
+            }
+            check_rep(ctx, &q, &m, "insert_typed(user key)");
+            q.remove_typed::<UpperTag>(); m.remove("tag");
+            check_rep(ctx, &q, &m, "remove_typed(user key)");
+            let r = guarded(|| { let mut q2 = build(&c); q2.remove_typed::<BadKey>(); (q2.contains_typed::<BadKey>(), q2.get_typed::<BadKey>().is_some(), q2.len()) });
+            match r {
+                Ok((false, false, n)) if n == c.len() => {},
+                other => ctx.violate("C06.panic", "looking up or unsetting a typed qualifier whose declared key is invalid neither panics nor changes the content", json!({"content": format!("{c:?}")}), format!("{other:?}"), "absent, unchanged".into()),
+            }
+        }
         // clear, duplicates in construction
         {
             let mut q = build(&c);
@@ -276,7 +302,9 @@ pub fn suite_qualmap(ctx: &Ctx, thorough: bool) {
 
 // ---- C09: builder sequences ----
 #[derive(Clone, Debug, PartialEq)]
-enum Op { Ns(&'static str), Name(&'static str), Ver(&'static str), Sub(&'static str), Ty(&'static str), Q(&'static str, &'static str), NoQ(&'static str), NoQs, NoNs, NoVer, NoSub }
+enum Op { Ns(&'static str), Name(&'static str), Ver(&'static str), Sub(&'static str), Ty(&'static str), Q(&'static str, &'static str), NoQ(&'static str), NoQs, NoNs, NoVer, NoSub,
+          /// typed setters and direct use of the builder's public qualifier list
+          TRepo(&'static str), NoTRepo, TTag(&'static str), NoTTag, NoTBad, RawQ(&'static str, &'static str), RawClear(&'static str) }
 
 #[derive(Clone, Debug, Default)]
 struct BModel { ty: String, ns: String, name: String, ver: String, sub: String, q: BTreeMap<String, String>, bad_key: bool }
@@ -292,6 +320,9 @@ pub fn suite_builder(ctx: &Ctx, thorough: bool) {
     for k in ["k", "K", "b.c", "bad key", ""] { for v in ["", "v", "a&b=c"] { ops.push(Op::Q(k, v)); } ops.push(Op::NoQ(k)); }
     ops.push(Op::Q("checksum", "SHA1:AB")); ops.push(Op::Q("checksum", "sha1:xyz")); ops.push(Op::Q("checksum", "")); ops.push(Op::Q("CheckSum", ""));
     ops.push(Op::NoQ("CHECKSUM"));
+    ops.push(Op::TRepo("")); ops.push(Op::TRepo("u")); ops.push(Op::NoTRepo); ops.push(Op::TTag("t")); ops.push(Op::NoTTag); ops.push(Op::NoTBad);
+    ops.push(Op::RawQ("r", "")); ops.push(Op::RawQ("K", "raw")); ops.push(Op::RawClear("k"));
+    ops.push(Op::Ns("a///b")); ops.push(Op::Sub("x////y/"));
     let len = if thorough { 4 } else { 3 };
     let n = ops.len();
     let total = (1..=len).map(|l| n.pow(l as u32)).sum::<usize>();
@@ -307,7 +338,7 @@ pub fn suite_builder(ctx: &Ctx, thorough: bool) {
     {
         let mut qops: Vec<Op> = vec![];
         for k in ["a", "b", "c", "B"] { qops.push(Op::Q(k, "x")); qops.push(Op::NoQ(k)); }
-        qops.push(Op::Q("c", ""));
+        qops.push(Op::Q("c", "")); qops.push(Op::TTag("t")); qops.push(Op::RawClear("b"));
         let depth = if thorough { 6 } else { 5 };
         let nq = qops.len();
         let total_q = (1..=depth).map(|l| nq.pow(l as u32)).sum::<usize>();
@@ -323,7 +354,7 @@ pub fn suite_builder(ctx: &Ctx, thorough: bool) {
     let mut big: Vec<&'static str> = vec![];
     for n in thresholds(thorough) {
         if n > 4200 { continue; }
-        for u in ["a", "B.", "é", "/x", "%", " "] {
+        for u in ["a", "B.", "é", "/x", "%", " ", "//", "a//"] {
             let b = inflate(u, n);
             big.push(Box::leak(format!("{b}Z").into_boxed_str()));
             big.push(Box::leak(format!("Z{b}").into_boxed_str()));
@@ -364,6 +395,14 @@ fn builder_one(ctx: &Ctx, seq: Vec<Op>) {
                 Op::NoSub => { m.sub.clear(); cur.without_subpath() },
                 Op::NoQs => { m.q.clear(); cur.without_qualifiers() },
                 Op::NoQ(k) => { if refimpl::valid_key(k) { m.q.remove(&k.to_ascii_lowercase()); } cur.without_qualifier(*k) },
+                Op::TRepo(u) => { m.q.insert("repository_url".into(), u.to_string()); cur.with_typed_qualifier(Some(purl::qualifiers::well_known::RepositoryUrl::from(*u))) },
+                Op::NoTRepo => { m.q.remove("repository_url"); cur.with_typed_qualifier(None::<purl::qualifiers::well_known::RepositoryUrl>) },
+                Op::TTag(u) => { m.q.insert("tag".into(), u.to_string()); cur.with_typed_qualifier(Some(UpperTag(u))) },
+                Op::NoTTag => { m.q.remove("tag"); cur.with_typed_qualifier(None::<UpperTag>) },
+                // unsetting a typed qualifier whose declared key is not a valid key: nothing to unset, and no panic (only INSERTING one is a documented panic)
+                Op::NoTBad => { let c2 = cur.clone(); match guarded(move || c2.with_typed_qualifier(None::<BadKey>)) { Ok(nb) => nb, Err(p) => { ctx.violate("C06.panic", "unsetting a typed qualifier never panics", json!(format!("{seq:?}")), p, "no panic".into()); cur } } },
+                Op::RawQ(k, v) => { let mut c2 = cur; if c2.parts.qualifiers.insert(*k, *v).is_ok() { m.q.insert(k.to_ascii_lowercase(), v.to_string()); } c2 },
+                Op::RawClear(k) => { let mut c2 = cur; if let Some(v) = c2.parts.qualifiers.get_mut(*k) { v.clear(); m.q.insert(k.to_ascii_lowercase(), String::new()); } c2 },
                 Op::Q(k, v) => {
                     let snapshot = cur.clone();
                     match cur.with_qualifier(*k, *v) {
@@ -414,6 +453,10 @@ fn builder_one(ctx: &Ctx, seq: Vec<Op>) {
                         Op::Ns(s) => tb.with_namespace(*s), Op::Name(s) => tb.with_name(*s), Op::Ver(s) => tb.with_version(*s), Op::Sub(s) => tb.with_subpath(*s),
                         Op::NoNs => tb.without_namespace(), Op::NoVer => tb.without_version(), Op::NoSub => tb.without_subpath(), Op::NoQs => tb.without_qualifiers(),
                         Op::NoQ(k) => tb.without_qualifier(*k), Op::Q(k, v) => { let s = tb.clone(); tb.with_qualifier(*k, *v).unwrap_or(s) }, Op::Ty(_) => tb,
+                        Op::TRepo(u) => tb.with_typed_qualifier(Some(purl::qualifiers::well_known::RepositoryUrl::from(*u))), Op::NoTRepo => tb.with_typed_qualifier(None::<purl::qualifiers::well_known::RepositoryUrl>),
+                        Op::TTag(u) => tb.with_typed_qualifier(Some(UpperTag(u))), Op::NoTTag => tb.with_typed_qualifier(None::<UpperTag>), Op::NoTBad => tb,
+                        Op::RawQ(k, v) => { let mut c2 = tb; let _ = c2.parts.qualifiers.insert(*k, *v); c2 },
+                        Op::RawClear(k) => { let mut c2 = tb; if let Some(v) = c2.parts.qualifiers.get_mut(*k) { v.clear(); } c2 },
                     };
                 }
                 let rule_ok = t != PackageType::Maven || sig_ns(&m.ns).is_some();
@@ -475,6 +518,36 @@ pub fn suite_checksum(ctx: &Ctx, thorough: bool) {
         big.push(vec![(leak_s(format!("{}É", inflate("q", n))), leak_b(vec![1])), (leak_s(format!("{}é", inflate("Q", n))), leak_b(vec![2]))]);
     }
     par_for(big.len(), &|i| checksum_one(ctx, big[i].clone()));
+    // every short checksum TEXT (entries, separators, case, duplicates, prefixes) as the qualifier of a parsed PURL: if it is accepted
+    // the stored text is the one canonical text, the typed accessor reads it back, and its text form is that text again
+    {
+        let toks: [&str; 10] = ["a", "b", "A", "a-", ":", ",", "00", "1F", "f", "0"];
+        let depth = if thorough { 6 } else { 5 };
+        let nt = toks.len();
+        let total_t = (1..=depth).map(|l| nt.pow(l as u32)).sum::<usize>();
+        par_for(total_t, &|mut idx| {
+            let mut l = 1; let mut block = nt;
+            while idx >= block { idx -= block; l += 1; block = nt.pow(l as u32); }
+            let mut text = String::new();
+            for _ in 0..l { text.push_str(toks[idx % nt]); idx /= nt; }
+            ctx.eval();
+            let s = format!("pkg:t/n?checksum={text}");
+            let want = refimpl::checksum_canon(&text);
+            match parse_string(&s) {
+                Err(p) => ctx.violate("C06.panic", "parsing never panics", json!(s), p, "no panic".into()),
+                Ok(Err(_)) => { if want.is_some() { ctx.violate("C12.spelling", "equivalent spelling is accepted", json!(s), "Err".into(), format!("{want:?}")); } },
+                Ok(Ok(p)) => {
+                    let got = p.qualifiers().get("checksum").map(str::to_owned);
+                    if want.is_none() || got != want { ctx.violate("C12.purl", "a PURL carries the one canonical text", json!(s), format!("{got:?}"), format!("{want:?}")); return; }
+                    ctx.nontrivial();
+                    match guarded(|| p.qualifiers().try_get_typed::<Checksum>().map(|o| o.map(|c| SmallString::try_from(c).map(|t| t.to_string())))) {
+                        Ok(Ok(Some(Ok(t)))) if Some(&t) == got.as_ref() => {},
+                        other => ctx.violate("C12.purl", "typed accessor reads the checksum back", json!(s), format!("{other:?}"), format!("{got:?}")),
+                    }
+                },
+            }
+        });
+    }
     // the empty checksum
     ctx.eval();
     match guarded(|| GenericPurl::<String>::builder("t".to_owned(), "n").try_with_typed_qualifier(Some(Checksum::default())).map(|b| b.build().map(|p| p.to_string()))) {
